@@ -980,6 +980,38 @@ func rulesC16(cx *Ctx) []Obligation {
 			obs = append(obs, bad(key, desc, strings.Join(diag, " | ")))
 		}
 	}
+	// O16.4 one formula for every ζ: no data-dependent case split in the PLONK evaluation
+	{
+		k := "C16/O16.4/uniform-evaluation"
+		d := "the vanishing identity is evaluated by one formula for every ζ, as in plonky2's circuit: on the paths from PlonkChip.Verify (outside the gate evaluators) no value is selected by a zero test or a bit (gl.Chip.IsZero / Lookup / Lookup2, api.Select / IsZero): a special case changes the polynomial that is checked at the points where it triggers"
+		var hits []string
+		for _, rec := range r.Recs {
+			if rec.Kind != "call" || rec.Callee == nil || len(rec.Chain) == 0 {
+				continue
+			}
+			inPlonk, inGates := false, false
+			for _, c := range rec.Chain {
+				if fnPkgShort(c.Callee) == "plonk" {
+					inPlonk = true
+				}
+				if fnPkgShort(c.Callee) == "plonk/gates" {
+					inGates = true
+				}
+			}
+			if !inPlonk || inGates || fnPkgShort(rec.Fn) != "plonk" {
+				continue
+			}
+			switch rec.Callee.Name() {
+			case "IsZero", "Lookup", "Lookup2", "Select":
+				hits = append(hits, r.site(rec)+" calls "+rec.Callee.Name())
+			}
+		}
+		if len(hits) > 0 {
+			obs = append(obs, bad(k, d, strings.Join(hits, " | ")))
+		} else {
+			obs = append(obs, good(k, d, "no selection in "+proof+"-independent PLONK evaluation code (plonk package)"))
+		}
+	}
 	key := "C16/O16.2/l0-denominator"
 	desc := "the division by n·(ζ − 1) in L₀(ζ) asserts that the quotient exists (hasQuotient == 1)"
 	found := false
